@@ -381,6 +381,10 @@ func execDecomp(in KV) string {
 			res = "unsupported"
 		case strings.Contains(errText, "does not match"):
 			res = "lenmismatch"
+		case strings.Contains(errText, "exceeds maximum"):
+			res = "toolarge"
+		case strings.Contains(errText, "exceeds specified len"):
+			res = "lenexceeds"
 		case strings.Contains(errText, "unexpected message"):
 			res = "badcert"
 		default:
